@@ -29,7 +29,7 @@ var (
 	deadline uint64 // 0 = none
 	// optional per-class counters (set by LoadSites)
 	siteClass  []uint8
-	classCount [4]uint64
+	classCount [5]uint64
 	// extra is an additional hook run after counting (the C20 scheduler)
 	extra func(site int)
 )
@@ -39,6 +39,7 @@ const (
 	ClassGradRule // function literal lexically inside package gradtrack
 	ClassGen      // element generators / fill loops (in-flight state)
 	ClassRNG
+	ClassBackprop // graph traversal machinery of back-propagation (package gradtrack, not a rule literal)
 )
 
 // Pause / Resume bracket oracle code (fingerprints, reads) so that it does
@@ -158,6 +159,8 @@ func LoadSites() bool {
 		switch {
 		case strings.Contains(s.Pos, "/gradtrack/") && s.Kind == "lit":
 			siteClass[s.ID] = ClassGradRule
+		case strings.Contains(s.Pos, "/gradtrack/back_propagation") || (strings.Contains(s.Pos, "/gradtrack/") && (s.Kind == "for" || s.Kind == "range")):
+			siteClass[s.ID] = ClassBackprop
 		case strings.Contains(s.Fn, "Rand") || strings.Contains(s.Fn, "RandomTensor"):
 			siteClass[s.ID] = ClassRNG
 		case strings.Contains(s.Fn, "ElemGenerator") || strings.Contains(s.Fn, "initWith") ||
